@@ -1,4 +1,5 @@
 import Tickit.Proof.XTermDrv
+import Tickit.Gen.XTermFacts
 /-
   C09 — xterm driver output has exactly the requested effect on a VT-conformant screen.
 
@@ -10,6 +11,15 @@ import Tickit.Proof.XTermDrv
 -/
 namespace Tickit.Props.C09
 open Tickit Tickit.VT Tickit.XTermDrv
+
+/-- A screen with a distinct glyph in every cell (for the non-vacuity examples and the counterexamples). -/
+def cexScreen (lines cols : Int) : VTState :=
+  VTState.init lines cols (fun l c => ⟨(l * cols + c).toNat + 0x100000, -1, false⟩)
+
+/-- A 4x6 screen, cursor at (1,2), background 3, reverse video, DECLRMM set. -/
+def exScreen : VTState := { cexScreen 4 6 with row := 1, col := 2, declrmm := true, rv := true, bg := 3 }
+
+theorem exScreen_wf : Spec.WF exScreen := by constructor <;> decide
 
 /-! ### `%d` round trip -/
 
@@ -69,8 +79,8 @@ theorem goto_effect (vt : VTState) (hw : Spec.WF vt) (line col : Int)
       rw [run_gotoAbs_pos vt hg line col hl'.1 hc'.1, moveTo_in vt _ _ hl' hc']
       simp [Spec.goto, h1, h2]
 
-example : Spec.WF (VTState.init 24 80 (fun _ _ => default)) := by
-  constructor <;> simp [VTState.init]
+example := goto_effect exScreen exScreen_wf 3 (-1) (by decide) (by decide)
+example := goto_effect exScreen exScreen_wf 0 5 (by decide) (by decide)
 
 /-- `move`: the cursor moves by exactly the requested offsets, the screen is untouched. -/
 theorem move_effect (vt : VTState) (hw : Spec.WF vt) (downward rightward : Int)
@@ -97,14 +107,9 @@ theorem move_effect (vt : VTState) (hw : Spec.WF vt) (downward rightward : Int)
         rw [moveTo_in _ _ _ (by simpa using hr) (by simpa using hc)]
     · exact hg
 
-/-! ### Print -/
+example := move_effect exScreen exScreen_wf (-1) 3 (by decide) (by decide)
 
-theorem getD_map_toNat (bs : List UInt8) (i : Nat) : (bs.map UInt8.toNat).getD i 32 = (bs.getD i 32).toNat := by
-  induction bs generalizing i with
-  | nil => rfl
-  | cons b rest ih => cases i with
-    | zero => rfl
-    | succ i => simpa using ih i
+/-! ### Print -/
 
 /-- `print` of printable ASCII text that fits in the row: exactly the cells under the text change, to the text's
     glyphs with the current attributes; the cursor ends after the text (on the last column with the wrap pending if
@@ -126,7 +131,8 @@ theorem print_effect (vt : VTState) (hw : Spec.WF vt) (hpw : vt.pendingWrap = fa
   funext l c
   simp only [textGrid, Spec.printGrid, List.length_map, getD_map_toNat]
 
-example : print [0x68, 0x69] 2 = [0x68, 0x69] := by decide
+/-- four characters from column 2 of 6: the text ends exactly at the right edge -/
+example := print_effect exScreen exScreen_wf rfl [0x68, 0x65, 0x79, 0x21] (by decide) (by decide) (by decide)
 
 /-! ### Clear -/
 
@@ -139,14 +145,13 @@ theorem clear_effect (vt : VTState) (hw : Spec.WF vt) :
   funext l c
   simp [VTState.ed, Spec.clearGrid, param, VTState.blank]
 
+example := clear_effect exScreen exScreen_wf
+
 /-! ### Erase characters -/
 
-theorem getD_replicate_space (n i : Nat) : (List.replicate n (0x20 : UInt8)).getD i 32 = 32 := by
-  simp only [List.getD_eq_getElem?_getD, List.getElem?_replicate]
-  split <;> rfl
-
 /-- A request with `count < 1` emits nothing. -/
-theorem erasech_noop (rv : Bool) (count : Int) (me : MoveEnd) (h : count < 1) : erasech rv count me = [] := by
+theorem erasech_noop (fx : Fixes) (rv : Bool) (count : Int) (me : MoveEnd) (h : count < 1) :
+    erasech fx rv count me = [] := by
   simp [erasech, h]
 
 /-- `erasech`, both strategies (ECH when the pen is not reverse video, spaces when it is), every `moveend`:
@@ -155,11 +160,12 @@ theorem erasech_noop (rv : Bool) (count : Int) (me : MoveEnd) (h : count < 1) : 
     `rv` is the reverse attribute of the driver's current pen, assumed equal to the terminal's.
     Hypotheses `h64` and `hlast` exclude exactly the two defects `erase_over_64_counterexample` and
     `erase_last_col_counterexample` below. -/
-theorem erasech_effect (vt : VTState) (hw : Spec.WF vt) (hpw : vt.pendingWrap = false) (rv : Bool) (hrv : vt.rv = rv)
+theorem erasech_effect (fx : Fixes) (vt : VTState) (hw : Spec.WF vt) (hpw : vt.pendingWrap = false)
+    (rv : Bool) (hrv : vt.rv = rv)
     (count : Int) (me : MoveEnd) (h1 : 1 ≤ count) (hfit : vt.col + count ≤ vt.cols)
-    (h64 : rv = true → me = .no → count ≤ 64)
+    (h64 : fx.eraseKeepsCount = false → rv = true → me = .no → count ≤ 64)
     (hlast : rv = true → me = .no → vt.col + count = vt.cols → vt.col = 0) :
-    Spec.EraseOK count me vt (run (erasech rv count me) vt) := by
+    Spec.EraseOK count me vt (run (erasech fx rv count me) vt) := by
   have hg := hw.ground
   have hrow : 0 ≤ vt.row ∧ vt.row < vt.lines := ⟨hw.row_lo, hw.row_hi⟩
   have hcol := hw.col_lo
@@ -183,10 +189,12 @@ theorem erasech_effect (vt : VTState) (hw : Spec.WF vt) (hpw : vt.pendingWrap = 
     cases me with
     | no =>
       simp only [reduceCtorEq, if_false, run_nil]
-      exact ⟨⟨rfl, rfl, rfl, rfl, rfl, rfl, rfl, rfl, rfl, rfl⟩, hgrid, rfl, fun _ => ⟨rfl, hpw⟩, (fun h => by cases h)⟩
+      exact ⟨⟨rfl, rfl, rfl, rfl, rfl, rfl, rfl, rfl, rfl, rfl⟩, hgrid, rfl, fun _ => ⟨rfl, hpw⟩, (fun h => by cases h),
+        hw.col_lo, hw.col_hi⟩
     | maybe =>
       simp only [reduceCtorEq, if_false, run_nil]
-      exact ⟨⟨rfl, rfl, rfl, rfl, rfl, rfl, rfl, rfl, rfl, rfl⟩, hgrid, rfl, (fun h => by cases h), (fun h => by cases h)⟩
+      exact ⟨⟨rfl, rfl, rfl, rfl, rfl, rfl, rfl, rfl, rfl, rfl⟩, hgrid, rfl, (fun h => by cases h), (fun h => by cases h),
+        hw.col_lo, hw.col_hi⟩
     | yes =>
       simp only [if_true, moveRel]
       rw [run_append, run_signedSeq_vmove _ (by simpa using hg)]
@@ -194,13 +202,14 @@ theorem erasech_effect (vt : VTState) (hw : Spec.WF vt) (hpw : vt.pendingWrap = 
       rw [run_signedSeq_hmove _ (by simpa using hg)]
       have hc0 : count ≠ 0 := by omega
       simp only [hc0, if_false]
-      refine ⟨⟨rfl, rfl, rfl, rfl, rfl, rfl, rfl, rfl, rfl, rfl⟩, hgrid, ?_, (fun h => by cases h), fun _ => ⟨?_, ?_⟩⟩
+      refine ⟨⟨rfl, rfl, rfl, rfl, rfl, rfl, rfl, rfl, rfl, rfl⟩, hgrid, ?_, (fun h => by cases h), fun _ => ⟨?_, ?_⟩, ?_⟩
       · simp only [VTState.moveTo, VTState.clampRow, VTState.ech]; omega
       · intro hlt
         refine ⟨?_, rfl⟩
         simp only [VTState.moveTo, VTState.clampCol, VTState.ech]; omega
       · intro heq
         simp only [VTState.moveTo, VTState.clampCol, VTState.ech]; omega
+      · simp only [VTState.moveTo, VTState.clampCol, VTState.ech]; omega
   | true =>
     -- spaces
     have hlenI : ((List.replicate count.toNat (0x20 : UInt8)).length : Int) = count := by
@@ -219,39 +228,55 @@ theorem erasech_effect (vt : VTState) (hw : Spec.WF vt) (hpw : vt.pendingWrap = 
     cases me with
     | yes =>
       simp only [reduceCtorEq, if_false, run_nil]
-      refine ⟨⟨rfl, rfl, rfl, rfl, rfl, rfl, rfl, rfl, rfl, rfl⟩, rfl, rfl, (fun h => by cases h), fun _ => ⟨?_, ?_⟩⟩
+      refine ⟨⟨rfl, rfl, rfl, rfl, rfl, rfl, rfl, rfl, rfl, rfl⟩, rfl, rfl, (fun h => by cases h), fun _ => ⟨?_, ?_⟩, ?_⟩
       · intro hlt
         simp only [hlt, if_true, true_and]
         apply decide_eq_false; omega
       · intro heq
         simp only []
         rw [if_neg (by omega)]
+      · simp only []; split <;> omega
     | maybe =>
       simp only [reduceCtorEq, if_false, run_nil]
-      exact ⟨⟨rfl, rfl, rfl, rfl, rfl, rfl, rfl, rfl, rfl, rfl⟩, rfl, rfl, (fun h => by cases h), (fun h => by cases h)⟩
+      refine ⟨⟨rfl, rfl, rfl, rfl, rfl, rfl, rfl, rfl, rfl, rfl⟩, rfl, rfl, (fun h => by cases h), (fun h => by cases h), ?_⟩
+      simp only []; split <;> omega
     | no =>
-      have hc64 : count ≤ 64 := h64 rfl rfl
-      have hrem : eraseRemainder count = count := by unfold eraseRemainder; omega
+      have hrem : (if fx.eraseKeepsCount = true then count else eraseRemainder count) = count := by
+        cases hk : fx.eraseKeepsCount with
+        | true => simp
+        | false =>
+          have hc64 : count ≤ 64 := h64 hk rfl rfl
+          simp only [Bool.false_eq_true, if_false]; unfold eraseRemainder; omega
       simp only [if_true, moveRel, hrem]
       rw [run_append, run_signedSeq_vmove _ (by simpa using hg)]
       simp only [if_true]
       rw [run_signedSeq_hmove _ (by simpa using hg)]
       have hc0 : ¬ (-count = 0) := by omega
       simp only [hc0, if_false]
-      refine ⟨⟨rfl, rfl, rfl, rfl, rfl, rfl, rfl, rfl, rfl, rfl⟩, rfl, ?_, fun _ => ⟨?_, rfl⟩, (fun h => by cases h)⟩
+      refine ⟨⟨rfl, rfl, rfl, rfl, rfl, rfl, rfl, rfl, rfl, rfl⟩, rfl, ?_, fun _ => ⟨?_, rfl⟩, (fun h => by cases h), ?_⟩
       · simp only [VTState.moveTo, VTState.clampRow]; omega
       · by_cases hlt : vt.col + count < vt.cols
         · simp only [VTState.moveTo, VTState.clampCol, hlt, if_true]; omega
         · have heq : vt.col + count = vt.cols := by omega
           have h0 := hlast rfl rfl heq
           simp only [VTState.moveTo, VTState.clampCol, hlt, if_false]; omega
+      · simp only [VTState.moveTo, VTState.clampCol]; split <;> omega
+
+/-- reverse video (spaces), `YES`, ending exactly at the last column; and `NO` in the middle of the row -/
+example := erasech_effect Fixes.none exScreen exScreen_wf rfl true rfl 4 .yes (by decide) (by decide) (by intro _ _ h; cases h)
+  (by intro _ h; cases h)
+example := erasech_effect Fixes.none exScreen exScreen_wf rfl true rfl 2 .no (by decide) (by decide) (by intro _ _ _; decide)
+  (by intro _ _ h; revert h; decide)
+/-- ECH strategy -/
+example := erasech_effect Fixes.none { exScreen with rv := false } (by constructor <;> decide) rfl false rfl 4 .yes
+  (by decide) (by decide) (by intro _ h; cases h) (by intro h; cases h)
 
 /-! ### Scroll rectangle -/
 
 /-- A scroll that reports failure emits nothing. -/
-theorem scroll_failure_silent (caps : Caps) (termCols : Int) (rect : Rect) (downward rightward : Int)
-    (h : (scrollrect caps termCols rect downward rightward).1 = false) :
-    (scrollrect caps termCols rect downward rightward).2 = [] := by
+theorem scroll_failure_silent (fx : Fixes) (caps : Caps) (termCols : Int) (rect : Rect) (downward rightward : Int)
+    (h : (scrollrect fx caps termCols rect downward rightward).1 = false) :
+    (scrollrect fx caps termCols rect downward rightward).2 = [] := by
   unfold scrollrect at h ⊢
   by_cases h0 : downward = 0 ∧ rightward = 0
   · rw [if_pos h0]
@@ -261,86 +286,23 @@ theorem scroll_failure_silent (caps : Caps) (termCols : Int) (rect : Rect) (down
     · rw [if_pos h1] at h; cases h
     · rw [if_neg h1] at h ⊢
       by_cases h2 : caps.slrm = true ∨ (rect.left = 0 ∧ rect.cols = termCols ∧ rightward = 0)
-      · rw [if_pos h2] at h; cases h
+      · rw [if_pos h2] at h ⊢
+        by_cases h3 : fx.scrollGuard = true ∧
+            (rect.lines < 2 ∨ ((rect.left > 0 ∨ rect.right < termCols) ∧ rect.cols < 2))
+        · rw [if_pos h3]
+        · rw [if_neg h3] at h; cases h
       · rw [if_neg h2]
 
-example : (scrollrect ⟨false, false, false⟩ 80 ⟨3, 10, 5, 60⟩ 1 0) = (false, []) := by decide
-
-/-- The in-range contract of a scroll request on screen `vt` (DESIGN.md Appendix C). -/
-structure ScrollInRange (vt : VTState) (rect : Rect) (downward rightward : Int) : Prop where
-  lines_pos : 1 ≤ rect.lines
-  cols_pos : 1 ≤ rect.cols
-  top : 0 ≤ rect.top
-  bottom : rect.bottom ≤ vt.lines
-  left : 0 ≤ rect.left
-  right : rect.right ≤ vt.cols
-  down : -rect.lines < downward ∧ downward < rect.lines
-  rightw : -rect.cols < rightward ∧ rightward < rect.cols
-
-/-- The trigger of the defect `scroll_one_column_counterexample`: a one-column rectangle that does not span the
-    terminal, scrolled vertically, with DECSLRM available. -/
-def OneColumnTrigger (caps : Caps) (termCols : Int) (rect : Rect) (downward : Int) : Prop :=
-  caps.slrm = true ∧ rect.cols = 1 ∧ downward ≠ 0 ∧ (rect.left > 0 ∨ rect.right < termCols)
-
-/-- The four shapes of a successful scroll's output. -/
-theorem scrollrect_ichdch_margin (caps : Caps) (tc : Int) (rect : Rect) (r : Int) (hr0 : r ≠ 0)
-    (hs : caps.slrm = true ∧ rect.lines = 1) (hlt : rect.right < tc) :
-    scrollrect caps tc rect 0 r =
-      (true, csi ([0x3b] ++ showInt rect.right ++ [0x73]) ++ (scrollLine rect.top rect.left r ++ csi [0x73])) := by
-  unfold scrollrect
-  rw [if_neg (by intro h; exact hr0 h.2)]
-  simp only []
-  rw [if_pos ⟨Or.inl hs, trivial⟩, if_pos hlt, if_pos hlt]
-  have hl : rect.lines.toNat = 1 := by omega
-  simp [hl]
-
-theorem scrollrect_ichdch_full (caps : Caps) (tc : Int) (rect : Rect) (r : Int) (hr0 : r ≠ 0)
-    (hre : rect.right = tc) :
-    scrollrect caps tc rect 0 r =
-      (true, (List.range rect.lines.toNat).flatMap fun (i : Nat) => scrollLine (rect.top + (i : Int)) rect.left r) := by
-  unfold scrollrect
-  rw [if_neg (by intro h; exact hr0 h.2)]
-  simp only []
-  rw [if_pos ⟨Or.inr hre, trivial⟩, if_neg (by omega), if_neg (by omega)]
-  simp
-
-theorem scrollrect_margins_lr (caps : Caps) (tc : Int) (rect : Rect) (d r : Int) (h0 : ¬ (d = 0 ∧ r = 0))
-    (hB1 : ¬ (((caps.slrm = true ∧ rect.lines = 1) ∨ rect.right = tc) ∧ d = 0))
-    (hB2 : caps.slrm = true ∨ (rect.left = 0 ∧ rect.cols = tc ∧ r = 0))
-    (hneed : rect.left > 0 ∨ rect.right < tc) :
-    scrollrect caps tc rect d r =
-      (true, csi (showInt (rect.top + 1) ++ [0x3b] ++ showInt rect.bottom ++ [0x72]) ++
-        (csi (showInt (rect.left + 1) ++ [0x3b] ++ showInt rect.right ++ [0x73]) ++
-          ((gotoAbs rect.top rect.left ++ signedSeq d [] 0x4d 0x4c ++ signedSeq r [0x27] 0x7e 0x7d) ++
-            (csi [0x72] ++ csi [0x73])))) := by
-  unfold scrollrect
-  rw [if_neg h0]
-  simp only []
-  rw [if_neg hB1, if_pos hB2, if_pos hneed, if_pos hneed]
-  simp [List.append_assoc]
-
-theorem scrollrect_margins_tb (caps : Caps) (tc : Int) (rect : Rect) (d r : Int) (h0 : ¬ (d = 0 ∧ r = 0))
-    (hB1 : ¬ (((caps.slrm = true ∧ rect.lines = 1) ∨ rect.right = tc) ∧ d = 0))
-    (hB2 : caps.slrm = true ∨ (rect.left = 0 ∧ rect.cols = tc ∧ r = 0))
-    (hneed : ¬ (rect.left > 0 ∨ rect.right < tc)) :
-    scrollrect caps tc rect d r =
-      (true, csi (showInt (rect.top + 1) ++ [0x3b] ++ showInt rect.bottom ++ [0x72]) ++
-          ((gotoAbs rect.top rect.left ++ signedSeq d [] 0x4d 0x4c ++ signedSeq r [0x27] 0x7e 0x7d) ++
-            csi [0x72])) := by
-  unfold scrollrect
-  rw [if_neg h0]
-  simp only []
-  rw [if_neg hB1, if_pos hB2, if_neg hneed, if_neg hneed]
-  simp [List.append_assoc]
+example : (scrollrect Fixes.none ⟨false, false, false⟩ 80 ⟨3, 10, 5, 60⟩ 1 0) = (false, []) := by decide
 
 /-- A scroll that reports success moves exactly the cells of the rectangle by the given offsets, blanks the vacated
     cells (current background), touches nothing outside and leaves no margins set — for every screen, every in-range
     rectangle and offsets, both values of the DECSLRM capability, whichever of the strategies the driver picks. -/
-theorem scroll_success_effect (vt : VTState) (hw : Spec.WF vt) (caps : Caps) (hcaps : Spec.CapsOK caps vt)
+theorem scroll_success_effect (fx : Fixes) (vt : VTState) (hw : Spec.WF vt) (caps : Caps) (hcaps : Spec.CapsOK caps vt)
     (rect : Rect) (downward rightward : Int) (hin : ScrollInRange vt rect downward rightward)
-    (hone : ¬ OneColumnTrigger caps vt.cols rect downward)
-    (hret : (scrollrect caps vt.cols rect downward rightward).1 = true) :
-    Spec.ScrollOK rect downward rightward vt (run (scrollrect caps vt.cols rect downward rightward).2 vt) := by
+    (hone : fx.scrollGuard = false → ¬ OneColumnTrigger caps vt.cols rect downward)
+    (hret : (scrollrect fx caps vt.cols rect downward rightward).1 = true) :
+    Spec.ScrollOK rect downward rightward vt (run (scrollrect fx caps vt.cols rect downward rightward).2 vt) := by
   have hg := hw.ground
   obtain ⟨hl1, hc1, htop, hbot, hleft, hright, hd, hr⟩ := hin
   have hb : rect.bottom = rect.top + rect.lines := rfl
@@ -349,7 +311,7 @@ theorem scroll_success_effect (vt : VTState) (hw : Spec.WF vt) (caps : Caps) (hc
   by_cases h0 : downward = 0 ∧ rightward = 0
   · -- nothing to do
     obtain ⟨rfl, rfl⟩ := h0
-    have e : scrollrect caps vt.cols rect 0 0 = (true, []) := by simp [scrollrect]
+    have e : scrollrect fx caps vt.cols rect 0 0 = (true, []) := by simp [scrollrect]
     rw [e, run_nil]
     refine ⟨⟨rfl, rfl, rfl, rfl, rfl, rfl, rfl, rfl, rfl, rfl⟩, ?_, hw.row_lo, hw.row_hi, hw.col_lo, hw.col_hi⟩
     funext l c
@@ -366,7 +328,7 @@ theorem scroll_success_effect (vt : VTState) (hw : Spec.WF vt) (caps : Caps) (hc
           | inl h => exact h
           | inr h => omega
         have hdecl : vt.declrmm = true := hcaps hs.1
-        rw [scrollrect_ichdch_margin caps vt.cols rect rightward hr0 hs hlt]
+        rw [scrollrect_ichdch_margin fx caps vt.cols rect rightward hr0 hs hlt]
         simp only []
         rw [run_append, run_append, run_csi_0n vt hg rect.right (by omega) 0x73 fin_s, dispatch_decslrm, hdecl]
         simp only [if_true, param_0n0, param_0n1]
@@ -392,7 +354,7 @@ theorem scroll_success_effect (vt : VTState) (hw : Spec.WF vt) (caps : Caps) (hc
         · simp only []; omega
       · -- the rectangle reaches the right edge: one ICH/DCH per line, no margins
         have hre : rect.right = vt.cols := by omega
-        rw [scrollrect_ichdch_full caps vt.cols rect rightward hr0 hre]
+        rw [scrollrect_ichdch_full fx caps vt.cols rect rightward hr0 hre]
         simp only []
         obtain ⟨k, hk⟩ : ∃ k : Nat, rect.lines.toNat = k + 1 := ⟨rect.lines.toNat - 1, by omega⟩
         rw [hk, run_scrollLines vt hg rect rightward (by omega) (by omega) k (by omega)]
@@ -406,6 +368,14 @@ theorem scroll_success_effect (vt : VTState) (hw : Spec.WF vt) (caps : Caps) (hc
         · simp only []; omega
     · by_cases hB2 : caps.slrm = true ∨ (rect.left = 0 ∧ rect.cols = vt.cols ∧ rightward = 0)
       · -- DECSTBM (+ DECSLRM) margins, IL/DL, DECIC/DECDC
+        by_cases hgd : fx.scrollGuard = true ∧
+            (rect.lines < 2 ∨ ((rect.left > 0 ∨ rect.right < vt.cols) ∧ rect.cols < 2))
+        · exfalso
+          unfold scrollrect at hret
+          rw [if_neg h0] at hret
+          simp only [] at hret
+          rw [if_neg hB1, if_pos hB2, if_pos hgd] at hret
+          cases hret
         -- DECSTBM needs two lines: follows from the contract
         have hl2 : 2 ≤ rect.lines := by
           by_cases h1 : rect.lines = 1
@@ -428,9 +398,11 @@ theorem scroll_success_effect (vt : VTState) (hw : Spec.WF vt) (caps : Caps) (hc
             · exfalso
               have hr0 : rightward = 0 := by omega
               have hd0 : downward ≠ 0 := fun h => h0 ⟨h, hr0⟩
-              exact hone ⟨hs, h1, hd0, hneed⟩
+              cases hsg : fx.scrollGuard with
+              | false => exact hone hsg ⟨hs, h1, hd0, hneed⟩
+              | true => exact hgd ⟨hsg, Or.inr ⟨hneed, by omega⟩⟩
             · omega
-          rw [scrollrect_margins_lr caps vt.cols rect downward rightward h0 hB1 hB2 hneed]
+          rw [scrollrect_margins_lr fx caps vt.cols rect downward rightward h0 hB1 hB2 hgd hneed]
           simp only []
           rw [run_append, run_csi_nn vt hg (rect.top + 1) rect.bottom (by omega) (by omega) 0x72 fin_r,
             dispatch_decstbm, param_nn0, param_nn1, decstbm_valid vt rect.top rect.bottom htop (by omega) hbot,
@@ -460,7 +432,7 @@ theorem scroll_success_effect (vt : VTState) (hw : Spec.WF vt) (caps : Caps) (hc
           · exact fin_s
         · -- full width: no left/right margins needed
           have hfull : rect.left = 0 ∧ rect.right = vt.cols := by omega
-          rw [scrollrect_margins_tb caps vt.cols rect downward rightward h0 hB1 hB2 hneed]
+          rw [scrollrect_margins_tb fx caps vt.cols rect downward rightward h0 hB1 hB2 hgd hneed]
           simp only []
           rw [run_append, run_csi_nn vt hg (rect.top + 1) rect.bottom (by omega) (by omega) 0x72 fin_r,
             dispatch_decstbm, param_nn0, param_nn1, decstbm_valid vt rect.top rect.bottom htop (by omega) hbot,
@@ -482,5 +454,132 @@ theorem scroll_success_effect (vt : VTState) (hw : Spec.WF vt) (caps : Caps) (hc
         simp only [] at hret
         rw [if_neg hB1, if_neg hB2] at hret
         cases hret
+
+/-- margins on all four sides, both offsets non-zero -/
+example := scroll_success_effect Fixes.none exScreen exScreen_wf ⟨true, false, false⟩ (fun _ => rfl) ⟨1, 1, 2, 3⟩ 1 (-1)
+  (by constructor <;> decide) (by intro _ h; revert h; decide) (by decide)
+/-- ICH/DCH on three lines reaching the right edge, no DECSLRM capability -/
+example := scroll_success_effect Fixes.none exScreen exScreen_wf ⟨false, true, true⟩ (by intro h; cases h) ⟨0, 2, 3, 4⟩ 0 2
+  (by constructor <;> decide) (by intro _ h; revert h; decide) (by decide)
+/-- one line between DECSLRM margins -/
+example := scroll_success_effect Fixes.none exScreen exScreen_wf ⟨true, true, false⟩ (fun _ => rfl) ⟨2, 1, 1, 4⟩ 0 (-3)
+  (by constructor <;> decide) (by intro _ h; revert h; decide) (by decide)
+
+/-! ### The full clauses, and the defects that refute them on the unchanged tree -/
+
+/-- The scroll clause with no side condition beyond the in-range contract. -/
+def C09_scroll_full (fx : Fixes) : Prop :=
+  ∀ (vt : VTState), Spec.WF vt → ∀ (caps : Caps), Spec.CapsOK caps vt →
+    ∀ (rect : Rect) (downward rightward : Int), ScrollInRange vt rect downward rightward →
+      (scrollrect fx caps vt.cols rect downward rightward).1 = true →
+      Spec.ScrollOK rect downward rightward vt (run (scrollrect fx caps vt.cols rect downward rightward).2 vt)
+
+/-- The erase clause with no side condition beyond the in-range contract. -/
+def C09_erase_full (fx : Fixes) : Prop :=
+  ∀ (vt : VTState), Spec.WF vt → vt.pendingWrap = false → ∀ (rv : Bool), vt.rv = rv →
+    ∀ (count : Int) (me : MoveEnd), 1 ≤ count → vt.col + count ≤ vt.cols →
+      Spec.EraseOK count me vt (run (erasech fx rv count me) vt)
+
+/-- The erase clause except for a reverse-video erase with `moveend = NO` ending exactly at the last column. -/
+def C09_erase_upto_last_col (fx : Fixes) : Prop :=
+  ∀ (vt : VTState), Spec.WF vt → vt.pendingWrap = false → ∀ (rv : Bool), vt.rv = rv →
+    ∀ (count : Int) (me : MoveEnd), 1 ≤ count → vt.col + count ≤ vt.cols →
+      (rv = true → me = .no → vt.col + count = vt.cols → vt.col = 0) →
+      Spec.EraseOK count me vt (run (erasech fx rv count me) vt)
+
+/-- DEFECT (unchanged tree): on a 5x4 terminal with DECSLRM available, `scrollrect((3,0) 2x1, +1, 0)` reports success
+    but sends `CSI 4;5 r  CSI 1;1 s  CSI 4 H  CSI M  CSI r  CSI s`; a conformant terminal ignores the degenerate
+    `CSI 1;1 s`, so `CSI M` deletes the whole of row 3 and cell (3,1), outside the rectangle, changes. -/
+theorem scroll_one_column_counterexample : ¬ C09_scroll_full Fixes.none := by
+  intro h
+  have h1 := h { cexScreen 5 4 with declrmm := true } (by constructor <;> decide) ⟨true, false, false⟩ (fun _ => rfl)
+    ⟨3, 0, 2, 1⟩ 1 0 (by constructor <;> decide) (by decide)
+  have h2 := congrFun (congrFun h1.2.1 3) 1
+  revert h2
+  decide +kernel
+
+/-- With the guard of `fixes/C09_scroll_one_column.patch` the scroll clause holds in full. -/
+theorem scroll_full_of_guard (fx : Fixes) (hfx : fx.scrollGuard = true) : C09_scroll_full fx := by
+  intro vt hw caps hcaps rect d r hin hret
+  exact scroll_success_effect fx vt hw caps hcaps rect d r hin (fun h => by rw [hfx] at h; cases h) hret
+
+/-- DEFECT (unchanged tree): under reverse video `erasech(65, NO)` at column 0 of an 80-column terminal prints 65
+    spaces and then `CSI D` (one column back): the chunk loop has reduced `count` to 1.  The cursor ends on column 64
+    instead of 0. -/
+theorem erase_over_64_counterexample : ¬ C09_erase_upto_last_col Fixes.none := by
+  intro h
+  have h1 := h { cexScreen 1 80 with rv := true } (by constructor <;> decide) rfl true rfl 65 .no (by decide) (by decide)
+    (by decide)
+  have h2 := (h1.2.2.2.1 rfl).1
+  revert h2
+  decide +kernel
+
+/-- With `fixes/C09_rv_erase_over_64.patch` only the last-column case remains excluded. -/
+theorem erase_upto_last_col_of_fix (fx : Fixes) (hfx : fx.eraseKeepsCount = true) : C09_erase_upto_last_col fx := by
+  intro vt hw hpw rv hrv count me h1 hfit hlast
+  exact erasech_effect fx vt hw hpw rv hrv count me h1 hfit (fun h => by rw [hfx] at h; cases h) hlast
+
+/-- DEFECT (with or without the proposed repairs): under reverse video `erasech(1, NO)` on the last column of a
+    2-column terminal prints a space — the cursor stays on the last column with the wrap pending — and then `CSI D`,
+    which lands on column 0: one cell left of the requested position. -/
+theorem erase_last_col_counterexample (fx : Fixes) : ¬ C09_erase_full fx := by
+  intro h
+  have h1 := h { cexScreen 1 2 with rv := true, col := 1 } (by constructor <;> decide) rfl true rfl 1 .no (by decide)
+    (by decide)
+  have h2 := (h1.2.2.2.1 rfl).1
+  revert h2
+  rcases fx with ⟨a, b⟩
+  cases a <;> cases b <;> decide +kernel
+
+/-! ### Tie to the source: constants and format strings regenerated from `termdriver-xterm.c` on every run -/
+
+open Tickit.Gen.XTermFacts in
+/-- The chunk size `h64` of `erasech_effect` speaks about is the one in the source. -/
+theorem erase_chunk_is_64 : eraseChunk = 64 := by decide
+
+open Tickit.Gen.XTermFacts in
+/-- `goto_abs` is `printf` of the source's format strings. -/
+theorem gotoAbs_printf (line col : Int) :
+    gotoAbs line col =
+      if line ≠ -1 ∧ col > 0 then fmt (goto_abs_formats.getD 0 []) [line + 1, col + 1]
+      else if line ≠ -1 ∧ col = 0 then fmt (goto_abs_formats.getD 1 []) [line + 1]
+      else if line ≠ -1 then fmt (goto_abs_formats.getD 2 []) [line + 1]
+      else if col > 0 then fmt (goto_abs_formats.getD 3 []) [col + 1]
+      else if col ≠ -1 then fmt (goto_abs_formats.getD 4 []) []
+      else [] := by
+  simp [gotoAbs, goto_abs_formats, fmt, csi]
+
+/-- The `n / 1 / -1 / -n` ladder as `printf` of four format strings. -/
+def ladder (n : Int) (f : List (List UInt8)) (i : Nat) : List UInt8 :=
+  if n > 1 then fmt (f.getD i []) [n]
+  else if n = 1 then fmt (f.getD (i + 1) []) []
+  else if n = -1 then fmt (f.getD (i + 2) []) []
+  else if n < -1 then fmt (f.getD (i + 3) []) [-n]
+  else []
+
+open Tickit.Gen.XTermFacts in
+theorem moveRel_printf (downward rightward : Int) :
+    moveRel downward rightward = ladder downward move_rel_formats 0 ++ ladder rightward move_rel_formats 4 := by
+  simp [moveRel, signedSeq, ladder, move_rel_formats, fmt, csi]
+
+open Tickit.Gen.XTermFacts in
+theorem scrollrect_printf :
+    (∀ r, signedSeq r [] 0x50 0x40 = ladder r scrollrect_formats 1) ∧
+    (∀ d, signedSeq d [] 0x4d 0x4c = ladder d scrollrect_formats 8) ∧
+    (∀ r, signedSeq r [0x27] 0x7e 0x7d = ladder r scrollrect_formats 12) ∧
+    (∀ right, csi ([0x3b] ++ showInt right ++ [0x73]) = fmt (scrollrect_formats.getD 0 []) [right]) ∧
+    (∀ t b, csi (showInt t ++ [0x3b] ++ showInt b ++ [0x72]) = fmt (scrollrect_formats.getD 6 []) [t, b]) ∧
+    (∀ l r, csi (showInt l ++ [0x3b] ++ showInt r ++ [0x73]) = fmt (scrollrect_formats.getD 7 []) [l, r]) ∧
+    csi [0x73] = fmt (scrollrect_formats.getD 5 []) [] ∧
+    csi [0x72] = fmt (scrollrect_formats.getD 16 []) [] ∧
+    csi [0x73] = fmt (scrollrect_formats.getD 17 []) [] := by
+  simp [signedSeq, ladder, scrollrect_formats, fmt, csi]
+
+open Tickit.Gen.XTermFacts in
+theorem erasech_clear_printf :
+    csi [0x58] = fmt (erasech_formats.getD 0 []) [] ∧
+    (∀ n, csi (showInt n ++ [0x58]) = fmt (erasech_formats.getD 1 []) [n]) ∧
+    clear = fmt (clear_formats.getD 0 []) [] := by
+  simp [erasech_formats, clear_formats, clear, fmt, csi]
 
 end Tickit.Props.C09
